@@ -1686,8 +1686,8 @@ fn gen_c03_faults(ctx: &Ctx, rng: &mut Rng, s: &SizeInfo, faults_out: &mut Vec<F
             let w = bounded_weights(rng, s);
             weighted_cw_faults(rng, s, &w, &mut faults);
         }
-        10 | 11 => burst_faults(rng, s, Some(s.t()), &mut faults),
-        11 if rng.chance(1, 2) => {
+        10 => burst_faults(rng, s, Some(s.t()), &mut faults),
+        11 => {
             // sparse locator polynomials: complete cosets of a multiplicative subgroup (plus a few free errors)
             let b = rng.below(s.blocks);
             match coset_positions(rng, s, b, s.t()) {
